@@ -87,9 +87,26 @@ package actionlint
 
 // C15: a project only claims files below its root directory (so the configuration applied to a file
 // is the one of the repository that contains it)
+// C15: the per-path configuration of a file is looked up with the file's path relative to the root of its
+// repository (that is what the patterns of actionlint.yaml are written against), whatever the working
+// directory is. pathrel / relbad = filepath.Rel and its failure, isabs = filepath.IsAbs, pathjoin = Join.
+//@ spec pathrel(base: string, target: string): string
+//@ spec relbad(base: string, target: string): bool
+//@ spec isabs(p: string): bool
+//@ func (*Project).RootDir
+//@   ensures result == p.root
+//@ func (*Linter).check
+//@   at_call [C15] (*Config).PathConfigs: project != nil && isabs(path0) && !relbad(project.root, path0) ==> path == pathrel(project.root, path0)
+//@   at_call [C15] (*Config).PathConfigs: project != nil && !isabs(path0) && !relbad(project.root, pathjoin(l.cwd, path0)) ==> path == pathrel(project.root, pathjoin(l.cwd, path0))
+
+// under(root, p): the absolute path p is root itself or lies below it - root is a prefix of p that ends at
+// a path separator (this lemma is the definition; '/' is the separator)
+//@ spec under(root: string, p: string): bool
+//@ lemma under_def: forall r: string, p: string :: under(r, p) <==> (hasprefix(p, r) && (len(p) == len(r) || (len(p) > len(r) && p[len(r)] == '/') || (len(r) > 0 && r[len(r)-1] == '/')))
 //@ func (*Project).Knows
 //@   props C15 C10
-//@   ensures result ==> hasprefix(abspath(path), p.root)
+//@   uses under_def
+//@   ensures result == under(p.root, abspath(path))
 //@ spec abspath(p: string): string
 //@ func absPath
 //@   ensures result == abspath(path)
